@@ -22,6 +22,11 @@ pub struct WorldCfg {
     /// Atomics created while the cache is being constructed (`is_shutting_down`, `keep_running`)
     /// are scheduling points only if the scenario can write them (i.e. contains `shutdown`).
     pub lifecycle_atomics_are_points: bool,
+    /// The id generator's atomic is a scheduling point (default on: one extra point per queued put).
+    pub id_atomics_are_points: bool,
+    /// The ten statistics counters are scheduling points (default off: they order nothing else; on in the
+    /// scenarios that check the counters after concurrent operations).
+    pub stats_atomics_are_points: bool,
     /// The harness clock is a scheduling point (set when something advances it inside the window).
     pub clock_is_point: bool,
     /// `Pool::add` buffer index: explorer data choice (true) or always 0.
@@ -41,6 +46,8 @@ impl Default for WorldCfg {
         WorldCfg {
             fair_rwlocks: false,
             lifecycle_atomics_are_points: false,
+            id_atomics_are_points: true,
+            stats_atomics_are_points: false,
             clock_is_point: false,
             pool_index_is_choice: false,
             iter_order_is_choice: false,
@@ -62,6 +69,8 @@ pub struct World {
     pub constructing: bool,
     pub seq: u64,
     pub next_lock_id: u32,
+    /// what the harness' main task is blocked on right now (for deadlock reports)
+    pub waiting_for: Option<(String, String)>,
 }
 
 impl World {
@@ -77,6 +86,7 @@ impl World {
             constructing: false,
             seq: 0,
             next_lock_id: 0,
+            waiting_for: None,
         }
     }
 }
@@ -156,29 +166,55 @@ pub fn events() -> Vec<Event> {
 /// Block the calling task until `pred` holds; re-evaluated after every event. Not a scheduling point unless it
 /// has to block; if the condition can never hold shuttle reports a deadlock.
 pub fn wait_until(pred: impl Fn(&World) -> bool) {
+    wait_until_labelled(pred, "condition", |_| String::new())
+}
+
+/// `tag` / `describe` say what is being waited for; a deadlock report quotes them.
+pub fn wait_until_labelled(pred: impl Fn(&World) -> bool, tag: &str, describe: impl Fn(&World) -> String) {
     loop {
         if with(|w| pred(w)) {
+            with(|w| w.waiting_for = None);
             return;
         }
         let me = rt::me();
-        with(|w| w.waiters.push(me));
+        with(|w| {
+            w.waiters.push(me);
+            let d = describe(w);
+            w.waiting_for = Some((tag.to_string(), d));
+        });
         rt::block_current();
         rt::switch();
     }
 }
 
+/// What the harness was waiting for when the execution stopped (deadlock diagnosis).
+pub fn waiting_for() -> Option<(String, String)> {
+    try_with(|w| w.waiting_for.clone()).flatten()
+}
+
 pub fn wait_event(kind: &'static str, at_least: u64) {
-    wait_until(|w| *w.counts.get(kind).unwrap_or(&0) >= at_least);
+    wait_until_labelled(|w| *w.counts.get(kind).unwrap_or(&0) >= at_least, kind, |w| format!("waiting for event {} #{} (seen {})", kind, at_least, w.counts.get(kind).unwrap_or(&0)));
 }
 
 /// Quiescence of the command worker: every command handed to the channel has been acknowledged.
 pub fn wait_commands_acked() {
-    wait_until(|w| {
+    let counts = |w: &World| {
         let sent = *w.counts.get("command_sent").unwrap_or(&0);
         let acked = *w.counts.get("worker_acked").unwrap_or(&0);
         let failed = *w.counts.get("command_send_failed").unwrap_or(&0);
-        acked + failed >= sent
-    });
+        (sent, acked, failed)
+    };
+    wait_until_labelled(
+        |w| {
+            let (sent, acked, failed) = counts(w);
+            acked + failed >= sent
+        },
+        "command-acknowledgements",
+        |w| {
+            let (sent, acked, failed) = counts(w);
+            format!("{} commands were queued but only {} acknowledged ({} failed sends): some acknowledgement never completes", sent, acked, failed)
+        },
+    );
 }
 
 pub fn take_tick_senders() -> Vec<super::sync::crossbeam_channel::Sender<std::time::Instant>> {
